@@ -64,7 +64,14 @@ Proof. exact expr_uses_spec. Qed.
 Print Assumptions C08_cached_uses_are_occurrences.
 
 (* the filter of SignalUse::get_constraints decides "the constraint statement
-   mentions the signal" *)
+   mentions the signal".
+   Fourth audit: `stmt_mentions` (Spec.SigAssignSpec.same_use) is EQUALITY of name and
+   access, the Rust `==` on the access vectors.  For whole-array and partially indexed
+   references the oracle of the check reads the property text more widely (a constraint
+   on an element / sub-array of the assigned array, or on an array containing the
+   assigned signal, mentions it: prefix-compatible accesses); that reading is not stated
+   here, and on such references this theorem and C08_sigassign_bijection speak about the
+   narrower relation (design.d/C08.md, "Fourth audit"). *)
 Theorem C08_constraint_filter_decides_mentions : forall ds v acc s,
   stmt_mentions_b ds v acc s = true <-> stmt_mentions ds s v acc.
 Proof. exact stmt_mentions_b_spec. Qed.
